@@ -30,7 +30,7 @@ namespace nmtools::view
     constexpr auto reduce_logical_and(const left_t& a, const axis_t& axis)
     {
         auto init = true;
-        return reduce(logical_and_t{},a,axis,init);
+        return reduce(logical_and_t{},a,axis,/*dtype=*/None,init);
     } // reduce_logical_and
 }
 
